@@ -530,4 +530,32 @@ example :
       = some [("_ŠČ1", Val.identity), ("_ŠČ0", Val.ty (.node "u8" [] []))] ∧
     merge [("_ŠČ0", Val.ty (.node "u8" [] []))] [("_ŠČ0", Val.identity)] = none := by decide
 
+/-- mutual extension is equality as finite maps -/
+theorem C09_ext_antisymm {a b : Subst} (e1 : Ext a b) (e2 : Ext b a) : ∀ n, lookup a n = lookup b n := by
+  intro n
+  cases hl : lookup a n with
+  | some v => exact (e1 n v hl).symm
+  | none =>
+    cases hr : lookup b n with
+    | some w => have := e2 n w hr; rw [hl] at this; cases this
+    | none => rfl
+
+/-- `merge` is associative as a finite map: the substitution of a node does not depend on how the matcher brackets the
+    folds over its children (`fold` over fields, then over the elements of a punctuated field) -/
+theorem C09_merge_assoc_as_maps (σ τ υ a b c d : Subst)
+    (h1 : merge σ τ = some a) (h2 : merge a υ = some b) (h3 : merge τ υ = some c) (h4 : merge σ c = some d) :
+    ∀ n, lookup b n = lookup d n := by
+  obtain ⟨a1, a2, a3⟩ := C09_merge_is_least_upper_bound σ τ a h1
+  obtain ⟨b1, b2, b3⟩ := C09_merge_is_least_upper_bound a υ b h2
+  obtain ⟨c1, c2, c3⟩ := C09_merge_is_least_upper_bound τ υ c h3
+  obtain ⟨d1, d2, d3⟩ := C09_merge_is_least_upper_bound σ c d h4
+  apply C09_ext_antisymm
+  · exact b3 d (a3 d d1 (Ext.trans c1 d2)) (Ext.trans c2 d2)
+  · exact d3 b (Ext.trans a1 b1) (c3 b (Ext.trans a2 b1) b2)
+
+/-- `merge` is idempotent as a finite map: matching the same parameter occurrence twice adds nothing -/
+theorem C09_merge_idem_as_maps (σ ρ : Subst) (h : merge σ σ = some ρ) : ∀ n, lookup ρ n = lookup σ n := by
+  obtain ⟨a1, _, a3⟩ := C09_merge_is_least_upper_bound σ σ ρ h
+  exact C09_ext_antisymm (a3 σ (Ext.refl σ) (Ext.refl σ)) a1
+
 end DI
